@@ -5,7 +5,8 @@ import RsslVerif.Model.GenHlsl
 
 * `Cast(type_id, expr)`: the operand itself is generated (never looked through); the cast is dropped only when the
   target is the *scalar* `IntLiteral` / `FloatLiteral` type; otherwise `Cast(generate_type_id(type), inner)`.
-  A *vector of a literal type* reaches `generate_scalar_type` and panics (known finding, kept as the panic it is).
+  A *vector of a literal type* reaches `generate_scalar_type` and panics (kept as the panic it is; the type checker
+  builds such a target only for the arms of `?:` since fix 40c6233 — known finding).
 * `Swizzle(object, slots)`: `Member(generate(object), letters)` with one letter per slot (`swizzleChar`, re-extracted).
 * `Constructor(type, slots)`: `Call(Identifier(type name), [], [generate(slot.expr) …])`, slots in order, arity unused.
 * `generate_type_impl`, `Vector(st, x)` arm: the scalar's name with the dimension appended.
